@@ -25,7 +25,8 @@ RULE = ('split_path: every path of <= 3 (quick) / <= 4 (thorough) segments over 
         'maxsegs {None,0,min-1..min+2} x rest_with_last through model and oracle, the same up to 6 segments through the oracle only (thorough), '
         'random paths with non-ASCII / surrogate / percent segments, doubled slashes, minsegs -1..6, negative and large maxsegs; '
         'split_by_commas: quote-join-split of item lists of length 1..5 over printable ASCII weighted towards , " \\ space and escape letters, '
-        'raw strings over a quoting-heavy alphabet with tabs/newlines/non-ASCII, four malformed families; distinct = distinct case JSON')
+        'raw strings over a quoting-heavy alphabet with tabs/newlines/non-ASCII, four malformed families; freshness sequences for both functions '
+        '(call, mutate the returned list in place, interleave other calls incl. raising ones, call again with equal but not identical arguments); distinct = distinct case JSON')
 
 warnings.filterwarnings('ignore', category=DeprecationWarning)
 try:
@@ -214,6 +215,34 @@ def sbc_cases(rng, n_rt, n_raw, n_mal, n_q):
     for _ in range(n_q):
         yield {'op': 'q', 'items': [''.join(rng.choice(RAW_ALPHA[:-1] + PRINTABLE) for _ in range(rng.randint(0, 5))).replace('\x00', '') for _ in range(rng.randint(1, 4))]}
 
+MUTS = ['set_last', 'set_first', 'pop', 'append', 'clear', 'fill_none', 'none']
+
+def fresh_case(rng):
+    """a call sequence for the freshness clause: f(x); mutate the returned list in place; other calls (some raising);
+    f(x') with equal but not identical arguments -> must equal the first result and be a new object"""
+    def one():
+        if fn == 'sp':
+            c = sp_valid(rng) if rng.random() < 0.8 else sp_random(rng)
+            return [c['path'], c['min'], c['max'], c['rest']]
+        r = rng.random()
+        if r < 0.6: return [join_items([rand_item(rng) for _ in range(rng.randint(1, 4))])]
+        if r < 0.8: return [structured_raw(rng)]
+        return [malformed(rng)[1]]
+    fn = 'sp' if rng.random() < 0.6 else 'sbc'
+    return {'op': 'fresh', 'fn': fn, 'x': one(), 'mut': rng.choice(MUTS), 'inter': [one() for _ in range(rng.randint(0, 3))]}
+
+FRESH_FIXED = [
+    {'op': 'fresh', 'fn': 'sp', 'x': ['/a/c', 1, 3, False], 'mut': 'fill_none', 'inter': []},
+    {'op': 'fresh', 'fn': 'sp', 'x': ['/a/c/o/r', 1, 3, True], 'mut': 'set_last', 'inter': [['a', 1, None, False]]},
+    {'op': 'fresh', 'fn': 'sp', 'x': ['/a', 1, None, False], 'mut': 'pop', 'inter': [['/b', 1, None, False], ['//', 1, None, False]]},
+    {'op': 'fresh', 'fn': 'sp', 'x': ['/a/b', 2, 4, False], 'mut': 'clear', 'inter': []},
+    {'op': 'fresh', 'fn': 'sp', 'x': ['/a/b', 2, 4, False], 'mut': 'append', 'inter': []},
+    {'op': 'fresh', 'fn': 'sp', 'x': ['nope', 1, None, False], 'mut': 'none', 'inter': [['/a', 1, None, False]]},
+    {'op': 'fresh', 'fn': 'sbc', 'x': ['a,"b c",d'], 'mut': 'set_first', 'inter': [['a,,b']]},
+    {'op': 'fresh', 'fn': 'sbc', 'x': ['"a'], 'mut': 'none', 'inter': [['a']]},
+    {'op': 'fresh', 'fn': 'sbc', 'x': ['x'], 'mut': 'clear', 'inter': []},
+]
+
 def gen_cases(rng, tier):
     quick = tier == 'quick'
     for p in ['', '/', '//', '/a', '/a/', '/a//', 'a', 'a/', '/a/c', '/a/c/o/r', '/a/c/o/r/']:
@@ -227,6 +256,9 @@ def gen_cases(rng, tier):
         r = rng.random()
         if r < 0.5: yield {'op': 'spd', 'path': rng.choice(['/', '/', '/', '', '//']) + rng.choice(SEGS_WIDE) + rng.choice(['', '', '/', '//'])}
         else: yield {'op': 'spd', 'path': (sp_random(rng) if r < 0.7 else sp_valid(rng))['path']}
+    yield from FRESH_FIXED
+    for _ in range(600 if quick else 20000):
+        yield fresh_case(rng)
     if quick: yield from sbc_cases(rng, 1500, 1500, 600, 300)
     else: yield from sbc_cases(rng, 40000, 40000, 12000, 3000)
 
@@ -235,9 +267,64 @@ def gen_cases(rng, tier):
 def _value(c):
     return join_items(c['items']) if c['op'] == 'rt' else c['v']
 
+def _rebuild(a):
+    """equal but not identical arguments"""
+    out = []
+    for v in a:
+        if isinstance(v, str): v = ''.join([ch for ch in v] + [''])
+        elif isinstance(v, bool): pass
+        elif isinstance(v, int): v = int(str(v))
+        out.append(v)
+    return out
+
+def _mutate(r, how):
+    if how == 'set_last' and r: r[-1] = 'MUTATED'
+    elif how == 'set_first' and r: r[0] = 'MUTATED'
+    elif how == 'pop' and r: r.pop()
+    elif how == 'append': r.append('MUTATED')
+    elif how == 'clear': r.clear()
+    elif how == 'fill_none':
+        for i, v in enumerate(r):
+            if v is None: r[i] = 'FILLED'
+        if None not in r: r.append('FILLED')
+    elif how != 'none': r.append(None)
+
+def _fresh(c):
+    """the freshness clause: every call computes its result from its arguments alone and hands out a new list"""
+    su = _su()
+    f = su.split_path if c['fn'] == 'sp' else su.split_by_commas
+    name = 'split_path' if c['fn'] == 'sp' else 'split_by_commas'
+    def call(a):
+        try: return 'ok', f(*_rebuild(a))
+        except Exception as e: return 'exn', _exn(e)
+    k1, r1 = call(c['x'])
+    if k1 == 'exn' and r1 != 'EXN:ValueError': return 'FRESH-OK'    # judged by the other clauses
+    snap = list(r1) if k1 == 'ok' else r1
+    handed = []
+    if k1 == 'ok':
+        if not isinstance(r1, list): return '%s%r returned %s, not a list' % (name, tuple(c['x']), type(r1).__name__)
+        handed.append(r1); _mutate(r1, c['mut'])
+    for rnd in range(2):
+        for y in c['inter']:
+            ky, ry = call(y)
+            if ky == 'ok' and isinstance(ry, list): _mutate(ry, c['mut'])
+        k2, r2 = call(c['x'])
+        if k1 == 'exn':
+            if (k2, r2) != (k1, r1):
+                return 'call %d of %s%r gives %r, the first call raised ValueError (interleaved calls: %r)' % (rnd + 2, name, tuple(c['x']), r2, c['inter'])
+            continue
+        if k2 != 'ok' or list(r2) != snap:
+            return ('call %d of %s%r gives %r but the first call gave %r (the list returned earlier was modified in place by the caller: %s; interleaved calls: %r)'
+                    % (rnd + 2, name, tuple(c['x']), r2, snap, c['mut'], c['inter']))
+        if any(r2 is h for h in handed):
+            return 'call %d of %s%r returned the very list object handed out by an earlier call' % (rnd + 2, name, tuple(c['x']))
+        handed.append(r2); _mutate(r2, c['mut'])
+    return 'FRESH-OK'
+
 def impl(c):
     su = _su()
     op = c['op']
+    if op == 'fresh': return _fresh(c)
     try:
         if op == 'sp': return canon_list(su.split_path(c['path'], c['min'], c['max'], c['rest']))
         if op == 'spd': return canon_list(su.split_path(c['path']))
@@ -273,6 +360,7 @@ def oracle(c, io):
                 return 'split_path(%r, %r, %r, %r): not exactly maxsegs entries: %s' % (c['path'], mn, mx, rest, io)
         return None
     if op == 'q': return None
+    if op == 'fresh': return None if io == 'FRESH-OK' else io
     if io.startswith('EXN:') and io != 'EXN:ValueError':
         return 'split_by_commas(%r) raised %s' % (_value(c), io[4:])
     if op == 'rt':
@@ -292,6 +380,7 @@ def classify(c, io):
     op = c['op']
     if op == 'mal': op += ':' + c['kind']
     if op == 'sp': op += ':rest' if c['rest'] else ':norest'
+    if op == 'fresh': return 'fresh:%s:%s' % (c['fn'], c['mut'])
     return op + (':exn' if io.startswith('EXN') else '')
 
 def extra_checks(rng, tier):
@@ -303,11 +392,13 @@ def extra_checks(rng, tier):
         yield 'split_path_exhaustive6', c, oracle(c, impl(c))
 
 def search(rng, budget):
+    yield from FRESH_FIXED
     yield from sp_exhaustive(4)
     n = 0
     while n < budget:
         yield sp_random(rng); yield sp_valid(rng); n += 2
         if n % 4 == 0:
+            yield fresh_case(rng)
             yield {'op': 'raw', 'v': structured_raw(rng)}
             yield {'op': 'rt', 'items': [rand_item(rng, allow_empty=rng.random() < 0.06) for _ in range(rng.randint(1, 5))]}
             yield {'op': 'raw', 'v': ''.join(rng.choice(RAW_ALPHA) for _ in range(rng.randint(0, 10)))}
